@@ -12,96 +12,10 @@ import (
 	"crypto/sha256"
 	"crypto/sha512"
 	"encoding/hex"
-	"encoding/json"
-	"fmt"
-	"os"
 	"testing"
 
 	"github.com/pion/dtls/v3/pkg/crypto/elliptic"
 )
-
-type c10Rand struct{ s uint64 }
-
-func (r *c10Rand) u64() uint64 {
-	r.s += 0x9e3779b97f4a7c15
-	z := r.s
-	z = (z ^ (z >> 30)) * 0xbf58476d1ce4e5b9
-	z = (z ^ (z >> 27)) * 0x94d049bb133111eb
-
-	return z ^ (z >> 31)
-}
-
-func (r *c10Rand) intn(n int) int {
-	if n <= 0 {
-		return 0
-	}
-
-	return int(r.u64() % uint64(n))
-}
-
-func (r *c10Rand) bytes(n int) []byte {
-	b := make([]byte, n)
-	for i := range b {
-		b[i] = byte(r.u64())
-	}
-
-	return b
-}
-
-func c10Seed() uint64 {
-	var s uint64 = 1
-	if v := os.Getenv("VERIF_SEED"); v != "" {
-		fmt.Sscanf(v, "%d", &s)
-	}
-
-	return s
-}
-
-func c10Thorough() bool { return os.Getenv("VERIF_TIER") == "thorough" }
-
-type c10Case struct {
-	Fn  int      `json:"fn"`
-	H   int      `json:"h"`
-	In  []string `json:"in"`
-	N   []int    `json:"n"`
-	Out []string `json:"out"`
-	Tag string   `json:"tag,omitempty"`
-}
-
-type c10Out struct{ f *os.File }
-
-func newC10Out(t *testing.T) *c10Out {
-	t.Helper()
-	p := os.Getenv("VERIF_OUT")
-	if p == "" {
-		p = os.DevNull
-	}
-	f, err := os.Create(p)
-	if err != nil {
-		t.Fatalf("VERIF_OUT: %v", err)
-	}
-	t.Cleanup(func() { _ = f.Close() })
-
-	return &c10Out{f: f}
-}
-
-func (o *c10Out) emit(fn, h int, tag string, in [][]byte, n []int, out [][]byte) {
-	c := c10Case{Fn: fn, H: h, Tag: tag, N: n}
-	if c.N == nil {
-		c.N = []int{}
-	}
-	for _, b := range in {
-		c.In = append(c.In, hex.EncodeToString(b))
-	}
-	for _, b := range out {
-		c.Out = append(c.Out, hex.EncodeToString(b))
-	}
-	b, err := json.Marshal(c)
-	if err != nil {
-		panic(err)
-	}
-	_, _ = o.f.Write(append(b, '\n'))
-}
 
 type c10Hash struct {
 	code int
@@ -181,7 +95,7 @@ func TestVerifC10Prf(t *testing.T) {
 			if ln > 104 {
 				ln = 104
 			}
-			out.emit(1, h.code, "PHash", [][]byte{secret, seed}, []int{ln},
+			out.emit(1, h.code, "PHash", [][]byte{secret, seed}, c10U(ln),
 				[][]byte{must(PHash(secret, seed, ln, h.f))})
 
 			pms := r.bytes(c10SecretLen(r, blk))
@@ -201,7 +115,7 @@ func TestVerifC10Prf(t *testing.T) {
 			if err != nil {
 				t.Fatal(err)
 			}
-			out.emit(4, h.code, "GenerateEncryptionKeys", [][]byte{ms, cr, sr}, l[:], [][]byte{
+			out.emit(4, h.code, "GenerateEncryptionKeys", [][]byte{ms, cr, sr}, c10U(l[0], l[1], l[2]), [][]byte{
 				keys.ClientMACKey, keys.ServerMACKey, keys.ClientWriteKey, keys.ServerWriteKey,
 				keys.ClientWriteIV, keys.ServerWriteIV,
 			})
@@ -233,14 +147,6 @@ func TestVerifC10Prf(t *testing.T) {
 		out.emit(8, 256, "EcdhePSKPreMasterSecret", [][]byte{z, psk}, nil,
 			[][]byte{must(EcdhePSKPreMasterSecret(psk, privB.PublicKey().Bytes(), privA.Bytes(), c.c))})
 	}
-}
-
-type c10Reader struct{ r *c10Rand }
-
-func (d c10Reader) Read(p []byte) (int, error) {
-	copy(p, d.r.bytes(len(p)))
-
-	return len(p), nil
 }
 
 func c10ECDHKey(c ecdh.Curve, r *c10Rand) *ecdh.PrivateKey {
